@@ -529,6 +529,13 @@ func (e *Environment) CreateOrSet(name string, val Object, create bool) Object {
 			if !Identical(old, val) {
 				return Error{Value: fmt.Sprintf("attempt to change constant %s from %s to %s", name, old.Inspect(), val.Inspect())}
 			}
+		} else if e.depth != 0 {
+			// Allowed because no scope has that constant yet: what a call memoizes from here on relies on that.
+			r := e.root()
+			if r.assumedAbsent == nil {
+				r.assumedAbsent = make(map[string]struct{})
+			}
+			r.assumedAbsent[name] = struct{}{}
 		}
 	}
 	if IsExtraFunction(name) {
